@@ -1,5 +1,4 @@
 /- C13: fixed-width text — theorems about the primitive model for every width, pad byte, side and byte string. -/
-import FinProto.Obl.Side
 import FinProto.Props.PrimLemmas
 namespace FinProto.Obl
 end FinProto.Obl
